@@ -78,6 +78,17 @@ def blanks_norm(s):
 # other words of the same command, written with every quote tag: (text written, argument expected)
 NEIGHBOURS = [("pl", "pl"), ("\\$A", "$A"), ("\\|x", "|x"), ("'s q'", "s q"), ('"d q"', "d q"), ("''", ""), ("a\\ b", "a b")]
 _nb = ((), ())      # (before, after) index tuples for the case being judged
+_lb = False         # the word being judged has a brace list of its own (written in the line, not brought in by a value)
+
+
+def expected_text(word, quote, env, status, pid):
+    want = model(word, env, status, pid)
+    if _lb and quote == "unq":
+        # the line's own brace list is expanded around the inserted value (values of these cases hold nothing the brace
+        # pass could take for a list of its own)
+        import c12
+        want = " ".join(c12.brace_expand(want))
+    return want
 
 
 def run_word(segs, quote, env, status, how):
@@ -148,7 +159,7 @@ def symptom(word, quote, env, status, r, recs):
         got = got[len(nbv):len(got) - len(nav)]
     if quote == "sq":
         return None if got == [word] else "single-quoted-text-changed"
-    want = model(word, env, status, r.pid)
+    want = expected_text(word, quote, env, status, r.pid)
     if quote == "dq":
         if got == [want]:
             return None
@@ -168,13 +179,27 @@ def _brace_pass_would_change(text):
         return True
 
 
+def _glob_pass_would_change(text):
+    """the scratch directory holds a, aa, b: a word with `*` is replaced only when it matches one of them"""
+    import fnmatch
+
+    def may_match(w):
+        if "*" not in w:
+            return False
+        if "/" in w or w.startswith("."):
+            return True          # reaches outside the scratch directory (`/a*`, `.*/*` goes through `..`): matches there are real
+        return any(fnmatch.fnmatchcase(f, w) for f in ("a", "aa", "b"))
+    return any(may_match(w) for w in text.split(" ") if w)
+
+
 def value_class(name, env, classes):
     return classes.get(name, "unset")
 
 
 def judge(case):
-    global _nb
+    global _nb, _lb
     _nb = (tuple(case.get("before", ())), tuple(case.get("after", ())))
+    _lb = bool(case.get("literal_brace_list"))
     try:
         v, sig, res = _judge(case)
         if v == "violated" and (_nb[0] or _nb[1]):
@@ -188,6 +213,7 @@ def judge(case):
         return (v, sig, res)
     finally:
         _nb = ((), ())
+        _lb = False
 
 
 def _judge(case):
@@ -196,7 +222,7 @@ def _judge(case):
     word, line, r, recs = run_word(segs, quote, env, status, how)
     sym = symptom(word, quote, env, status, r, recs)
     res = {"line": line, "how": how, "observed": [x["argv"][1:] for x in recs],
-           "expected": model(word, env, status, r.pid) if quote != "sq" else word, "stderr": r.err.decode("utf-8", "replace")[-200:]}
+           "expected": expected_text(word, quote, env, status, r.pid) if quote != "sq" else word, "stderr": r.err.decode("utf-8", "replace")[-200:]}
     if sym is None:
         return ("held", None, res)
     if sym == "TIMEOUT":
@@ -220,10 +246,16 @@ def _judge(case):
         # (only where the brace / range pass has something to expand in the inserted text: a group without a comma, `${B}`,
         # `{}` is put back as it was, so a wrong result there is not this finding)
         fam = "substituted-text-is-rescanned-by-brace-expansion"
-    elif quote == "unq" and ("*" in exp or exp.startswith("~")):
+    elif quote == "unq" and _glob_pass_would_change(exp):
         fam = "substituted-text-is-rescanned-by-glob-or-tilde-expansion"
+    elif quote == "unq" and exp.startswith("~"):
+        # (the tilde pass runs before parameter expansion: a tilde that comes out of a value is not its business)
+        fam = "substituted-text-is-rescanned-by-the-tilde-pass"
     if fam:
         return ("violated", "C10:%s:%s:%s" % (quote, fam, sym), res)
+    if case.get("literal_brace_list"):
+        return ("violated", "C10:%s:value-next-to-a-brace-list-written-in-the-line:value=%s:%s" % (
+            quote, "+".join(sorted(set(classes.values()) & {"backslash", "plain"})), sym), res)
     # 3. a single reference that fails on its own
     for sg in segs:
         if sg[0] != "ref":
@@ -278,6 +310,18 @@ def gen_case(rng):
         segs = rng.choice([[("ref", f1, nm), ("lit", ","), ("ref", f2, nm)],
                            [("lit", "x"), ("ref", f1, nm), ("lit", ","), ("lit", "y"), ("ref", "brace", nm), ("lit", "z")],
                            [("ref", "brace", nm), ("lit", ","), ("ref", "plain", "NOPE"), ("lit", ","), ("ref", f2, nm)]])
+    literal_brace_list = False
+    if rng.random() < 0.05:
+        # directed: the word has a brace list of its own next to (or around) the reference, and the value holds characters the
+        # brace pass treats specially while it copies text (a backslash) but nothing it could take for a list
+        nm = names[0]
+        env[nm] = rng.choice(["a\\d+b", "\\1", "a\\b", "c:\\dir\\f", "v1", "a.b", "(x)", "^c$", "k:v"])
+        classes[nm] = "backslash" if "\\" in env[nm] else "plain"
+        f1 = rng.choice(["plain", "brace"])
+        segs = rng.choice([[("ref", f1, nm), ("lit", "{1,2}")], [("lit", "{x,y}"), ("ref", f1, nm)],
+                           [("lit", "{"), ("ref", f1, nm), ("lit", ",z}")], [("lit", "p"), ("ref", "brace", nm), ("lit", "{1,2}q")],
+                           [("lit", "{x,"), ("ref", f1, nm), ("lit", "}"), ("ref", f1, nm)]])
+        literal_brace_list = True
     before, after = [], []
     if rng.random() < 0.35:
         before = [rng.randrange(len(NEIGHBOURS)) for _ in range(rng.randint(1, 2))]
@@ -287,7 +331,7 @@ def gen_case(rng):
         # `read` trims blanks at both ends of the line and has its own backslash rules: not this property's subject
         how = "assign-export-assign"
     return {"segs": segs, "quote": rng.choice(["unq", "dq", "dq", "sq"]), "env": env, "classes": classes, "before": before, "after": after, "how": how,
-            "status": rng.choice([0, 3, 127])}
+            "status": rng.choice([0, 3, 127]), **({"literal_brace_list": True} if literal_brace_list else {})}
 
 
 def _work(case):
@@ -305,7 +349,7 @@ def run(tier, seed):
     rep.rule = ("words of 1..6 adjacent segments {literal, $N, ${N}, $?, $$} over names A AB A_ B X Y Z NOPE (prefixes "
                 "of one another, unset ones), unquoted / double-quoted / single-quoted, under environments (exported by "
                 "the driver, assigned in the line, assigned then exported with a new value, exported then re-assigned, assigned-exported-reassigned, or read into an exported name) whose values are plain, blank-containing, $-references, $1, "
-                "regex-special, backslashes, braces, glob/tilde, empty, self- and mutually referential; a third of the words stand next to "
+                "regex-special, backslashes, braces, glob/tilde, empty, self- and mutually referential (5%: the word has a brace list of its own around or next to the reference); a third of the words stand next to "
                 "1..3 other words of the same command written plain, quoted, empty or with an escaped $ / | / blank.  "
                 "Non-trivial = at least one reference; distinct by (word, quote, environment, how).")
     rep.assumptions = ["names are matched greedily as [A-Za-z0-9_]+ (as the implementation's own pattern does)",
